@@ -16,15 +16,23 @@ PL = BATCH + 'ParameterList'
 RUNNING = ATruthy(Sym('<model running>'))
 
 
-def built_list_ok(t: Term, parameters: Term) -> bool:
-    """t is `parameters.build()` for a ParameterList and `ParameterList(parameters).build()` otherwise."""
+def built_list_ok(t: Term, parameters: Term, cond=None) -> bool:
+    """t is `parameters.build()` for a ParameterList and `ParameterList(parameters).build()` otherwise - as one conditional
+    expression, or as either call on a path whose condition `cond` has established which case it is."""
+    from sa.terms import AIsInst, strip_epochs
+    t = strip_epochs(t)
     b1 = App('call:' + PL + '.build', (parameters,))
     b2 = App('call:' + PL + '.build', (App('new:' + PL, (parameters,)),))
-    is_pl = [AEq(App('type', (parameters,)), Sym(PL)), __import__('sa.terms', fromlist=['AIsInst']).AIsInst(parameters, Sym(PL))]
+    is_pl = [AEq(App('type', (parameters,)), Sym(PL)), AIsInst(parameters, Sym(PL))]
     if isinstance(t, IfT):
         if t.cond in is_pl and t.a == b1 and t.b == b2:
             return True
         if f_not(t.cond) in is_pl and t.a == b2 and t.b == b1:
+            return True
+    if cond is not None:
+        if t == b1 and any(implies(cond, a) is None for a in is_pl):
+            return True
+        if t == b2 and any(implies(cond, f_not(a)) is None for a in is_pl):
             return True
     return False
 
@@ -55,7 +63,7 @@ def guard_with_running(cx: Cx, F):
     return subst_atoms(F, m)
 
 
-def check_driver_loop(cx: Cx, fn, model_from: List[str], rule='R-GUARD'):
+def check_driver_loop(cx: Cx, fn, model_from: List[str], rule='R-GUARD', limit: str = 'max_timesteps', _depth=0):
     """In fn: the model is built by _build_model_from_kwargs(model_cls, <kwargs param>) == model_cls(**kwargs) on every
     call, and model.execute() (one step) runs under `model.is_running() and timestep < max_timesteps` (strict)."""
     mexec = CORE + 'Model.execute'
@@ -106,8 +114,8 @@ def check_driver_loop(cx: Cx, fn, model_from: List[str], rule='R-GUARD'):
                 model = strip_epochs(model)
                 ts = Attr(Attr(model, 'systems'), 'timestep')
                 alt = Attr(model, 'timestep')
-                want = f_and(RUNNING, mk_cmp(ts, '<', Sym('max_timesteps')))
-                want2 = f_and(RUNNING, mk_cmp(alt, '<', Sym('max_timesteps')))
+                want = f_and(RUNNING, mk_cmp(ts, '<', Sym(limit)))
+                want2 = f_and(RUNNING, mk_cmp(alt, '<', Sym(limit)))
                 cex = compare(F, want, domain='int')
                 if cex is not None and compare(F, want2, domain='int') is not None:
                     show = {a: b for a, b in cex.items() if not a.startswith('_')}
@@ -116,6 +124,23 @@ def check_driver_loop(cx: Cx, fn, model_from: List[str], rule='R-GUARD'):
                                  f"max_timesteps] (strict): they differ at {show} (code steps: {cex['_left']})", where=cx.where(fn, e.line),
                                  found=repr(F), expected=repr(want), counterexample=cex, path=p.lines())
                     return
+    if seen_exec == 0 and _depth < 3:
+        # the run was factored out into a helper that is called where it cannot be walked inline (inside a comprehension):
+        # the helper is the driver, with the caller's arguments bound to its parameters
+        helpers = {}
+        for p in cx.walker.paths(fn, WalkOptions(unroll=1, callee_raises=False)):
+            for e in p.events:
+                if e.kind == 'call' and len(e.data.get('targets', [])) == 1 and cx.effects.key(e.data['targets'][0]) in reach \
+                        and e.data['targets'][0].qualname not in (mexec, fn.qualname) and not e.data.get('full_inline'):
+                    h = e.data['targets'][0]
+                    b = _Ctx(cx.walker, fn, WalkOptions()).bind_args(h, e.data.get('recv'), list(e.data.get('args', ())), dict(e.data.get('kw', ())),
+                                                                    State(), e.data.get('recv') is not None)
+                    inv = {t.name: k for k, t in (b or {}).items() if isinstance(t, Sym)}
+                    helpers.setdefault(h.qualname, (h, inv))
+        if len(helpers) == 1:
+            (h, inv), = helpers.values()
+            if all(x in inv for x in model_from + [limit]):
+                return check_driver_loop(cx, h, [inv[x] for x in model_from], rule, inv[limit], _depth + 1)
     if seen_exec == 0:
         cx.inconclusive(rule, f"{fn.name} driver loop", 'no model.execute() call found', where=cx.where(fn), function=fn.qualname)
         return
@@ -133,14 +158,13 @@ def check_driver_loop(cx: Cx, fn, model_from: List[str], rule='R-GUARD'):
     else:
         cx.ok('R-FRESH', f"{fn.name}: model = {model_from[0]}(**{model_from[1]}) built inside every call", where=cx.where(fn), function=fn.qualname)
     # no module-level mutable state is read
-    mod = fn.module
-    for n in ast.walk(fn.node):
-        if isinstance(n, ast.Name) and isinstance(n.ctx, ast.Load) and n.id in mod.assigns and \
-                not isinstance(mod.assigns[n.id], ast.Constant):
+    from .common import module_state_reads
+    for n in module_state_reads(fn):
+        if isinstance(n, ast.Name):
             cx.violation('R-FRESH', fn.qualname, 'no-module-level-state',
                          f"{fn.name} reads the module-level object '{n.id}': runs are no longer independent of each other",
                          where=cx.where(fn, n.lineno))
-        if isinstance(n, (ast.Global, ast.Nonlocal)):
+        else:
             cx.violation('R-FRESH', fn.qualname, 'no-module-level-state', f"{fn.name} declares global state", where=cx.where(fn, n.lineno))
 
 
@@ -172,3 +196,43 @@ def arms(cx: Cx, fn, paths: List[Path]):
         elif implies(p.cond, f_not(one)) is None:
             pool.append(p)
     return serial, pool
+
+
+def result_pipeline(cx: Cx, fn, paths: List[Path], p: Path, ret: Term, table=None):
+    """The result list `ret` of a batch front-end on path p, read as [F(w) for w in W if keep(F(w))] whichever way it is
+    written (loop with appends, comprehension, map(F, W), pool.imap*(F, W), copies of those).  Returns a dict
+    {F, W, keep: 'not-none' | 'all', via: 'serial' | '.imap' | ..., forms} or an error string."""
+    from .common import list_facts
+    ret = strip_versions(ret)
+    if not isinstance(ret, Fresh):
+        return f"{ret!r} is not a list built in this call"
+    lf = list_facts(paths, p, ret, lambda s: not isinstance(s, Fresh), table)
+    if not lf.ok:
+        return lf.err
+    if lf.base_src is None or lf.elem is None:
+        return 'the result list is never filled on this path'
+    src, v = strip_versions(lf.base_src), lf.base_var
+    if isinstance(src, App) and src.fn in ('.imap_unordered', '.imap', '.map') and len(src.args) == 3 and not src.kw:
+        F, W, x, via = src.args[1], src.args[2], v, src.fn
+    elif isinstance(src, App) and src.fn in ('map', 'call') and Sym('builtins.map') in src.args[:1] and len(src.args) == 3:
+        F, W, x, via = src.args[1], src.args[2], v, 'serial'
+    elif isinstance(src, App) and src.fn == 'map' and len(src.args) == 2 and not src.kw:
+        F, W, x, via = src.args[0], src.args[1], v, 'serial'
+    else:
+        calls = [e for q in paths for e in q.events if e.kind == 'call' and e.data.get('args') == (v,) and not e.data.get('kw')
+                 and e.data.get('result') == lf.elem and e.data.get('func_term') is not None]
+        fts = {e.data.get('func_term') for e in calls}
+        if len(fts) != 1:
+            return f"the kept element {lf.elem!r} is not the result of calling the worker on the work item {v!r}"
+        F, W, x, via = next(iter(fts)), src, lf.elem, 'serial'
+    if x != lf.elem:
+        return f"the list keeps {lf.elem!r}, not the worker's result {x!r}"
+    notnone = f_not(AIs(x, Const(None)))
+    if lf.cond == FTrue:
+        keep = 'all'
+    elif compare(lf.cond, notnone) is None:
+        keep = 'not-none'
+    else:
+        return (f"whether a result is kept does not depend on `is not None` alone (condition {lf.cond!r}): falsy but valid "
+                f"results (empty record lists) would be dropped")
+    return {'F': F, 'W': W, 'keep': keep, 'via': via, 'forms': lf.forms}
